@@ -419,8 +419,9 @@ const EXOTIC: [&str; 22] = [
     "é", "e\u{301}", "naïve", "שלום", "مرحبا", "日本語", "😀", "👨\u{200d}👩\u{200d}👧", "42", "3rd", "ß", "İ", "ǅ", "\u{200b}", "ﬁ", "Ⅷ", "x²",
     "a\u{308}\u{323}", "--", "'", "l'", "o'clock",
 ];
-const SEPS: [&str; 18] = [
-    " ", " ", " ", "  ", ", ", ". ", "; ", "\n", "\t", "\u{a0}", "\u{2009}", "-", " - ", "…", "! ", " (", ") ", ": ",
+const SEPS: [&str; 21] = [
+    " ", " ", " ", "  ", ", ", ". ", "; ", "\n", "\t", "\u{a0}", "\u{2009}", "-", " - ", "…", "! ", " (", ") ", ": ", "\r\n", ",\r\n",
+    " \r\n ",
 ];
 
 pub fn gen_text(rng: &mut Rng, pool: &Pool, cfg: &GenCfg, nwords: usize) -> String {
@@ -504,7 +505,8 @@ impl Check for C02 {
         let sink_mode = *rng.pick(&[0u8, 0, 0, 1, 2, 3, 4, 5]);
         let sink_k = rng.below(4);
         let text = if rng.chance(3, 4) {
-            let n = rng.range(0, 16);
+            // one text in 150 is a long document (thousands of bytes, hundreds of tokens)
+            let n = if rng.chance(1, 150) { rng.range(500, 1500) } else { rng.range(0, 16) };
             gen_text(rng, pool, &cfg, n)
         } else {
             String::new()
@@ -553,7 +555,18 @@ impl Check for C02 {
         if !case.text.is_empty() {
             let chars: Vec<(usize, char)> = case.text.char_indices().collect();
             let words: Vec<&str> = case.text.split(' ').collect();
-            if words.len() > 1 {
+            if words.len() > 8 {
+                let h = words.len() / 2;
+                out.push(Case { text: words[h..].join(" "), ..case.clone() });
+                out.push(Case { text: words[..h].join(" "), ..case.clone() });
+                let q = words.len() / 4;
+                for k in 0..4 {
+                    let mut w = words.clone();
+                    w.drain(k * q..(k + 1) * q);
+                    out.push(Case { text: w.join(" "), ..case.clone() });
+                }
+            }
+            if words.len() > 1 && words.len() <= 80 {
                 for i in 0..words.len() {
                     let mut w = words.clone();
                     w.remove(i);
